@@ -38,7 +38,11 @@ class Hist:
                     nm = doc.addPicture(rng.choice(['Pictures/logo.gif', 'Pictures/named_%d.gif' % k]) if ('Pictures/logo.gif' not in doc.Pictures) else 'Pictures/named_%d.gif' % k, 'image/gif', data); mt = 'image/gif'
                 else:
                     fn = os.path.join(scratch, 'pic%d.jpg' % k); open(fn, 'wb').write(data)
-                    nm = doc.addPictureFromFile(fn) if rng.random() < 0.5 else doc.addPicture(fn); mt = 'image/jpeg'
+                    r3 = k % 3
+                    if r3 == 0: nm = doc.addPictureFromFile(fn); mt = 'image/jpeg'
+                    elif r3 == 1: nm = doc.addPicture(fn); mt = 'image/jpeg'
+                    else:                                  # a file on disk with the media type stated by the caller (not the one its name suggests)
+                        mt = rng.choice(['image/pjpeg', 'image/x-verif', 'image/jpeg']); nm = doc.addPicture(fn, mt)
                 self.picrefs.append((doc, nm, data, mt))
             if rng.random() < 0.4:
                 cs = config.ConfigItemSet(name='s'); cs.addElement(config.ConfigItem(name='n', type='string', text='v')); doc.settings.addElement(cs)
